@@ -141,7 +141,15 @@ class Gen:
     def extra(self, depth, in_loop):
         """rarer constructs"""
         ind = lambda lines: ["    " + l for l in lines]
-        k = R.randrange(17)
+        k = R.randrange(19)
+        if k in (17, 18) and depth < 2:    # case analysis on an integer (len / count)
+            subj = R.choice(["len(xs)", "xs.count(%s)" % self.const(), "len(d)"])
+            t1 = "%s %s %s" % (subj, R.choice(["==", "<", ">", "<=", ">=", "!="]), R.choice(["0", "1", "2"]))
+            t2 = "%s %s %s" % (subj, R.choice(["==", "<", ">", "<=", ">="]), R.choice(["0", "1", "2", "3"]))
+            a_, b_, c_ = self.block(depth + 1, in_loop, 1), self.block(depth + 1, in_loop, 1), self.block(depth + 1, in_loop, 1)
+            if R.random() < 0.5:
+                return ["if %s:" % t1] + ind(a_) + ["elif %s:" % t2] + ind(b_) + ["else:"] + ind(c_)
+            return ["if %s:" % t1] + ind(["if %s:" % t2] + ind(a_) + ["else:"] + ind(b_)) + ["else:"] + ind(c_)
         if k in (15, 16):    # formatted strings
             forms = ["emit('%%s|%%r' %% (%s, %s))" % (self.iexpr(), self.iexpr()), "emit('n=%%d v=%%s' %% (len(xs), %s))" % self.iexpr(), "emit('{}-{}'.format(%s, %s))" % (self.iexpr(), self.iexpr()),
                      "emit('v%%s' %% %s)" % R.choice(self.ints), "emit('100%%%% %%s' %% %s)" % self.iexpr()]
